@@ -23,6 +23,32 @@ CLAIMS = {
         note=TB + " Assumes thread-safe user functors/lexers/streams and a re-entrant standard library.",
         technique="declaration and effect analysis over the type-checked AST (custom clang plugin + rule engine)",
     ),
+    "C16": dict(
+        category="other",
+        text="Non-interference of the verbose flag and of the error stream with the parse is decided by an effect "
+             "and taint analysis of every function reachable from context_parse / regex::expr::match in the "
+             "std::ostream and no_stream instantiations (EFF-V1..V5): stream writes only under verbose tests or in "
+             "the three documented reports, verbose-guarded branches and printed operands effect-free, flag and "
+             "stream flow nowhere else. TRACE ties the operand printed for each action to the operand the action "
+             "uses. This covers all grammars and inputs; a test compares outputs for a few.",
+        design_ref="DESIGN.md 5/C16",
+        note=TB + " Not decided: completeness of the trace as a transcript of a reference LR run. Assumes the "
+                  "user's operator<< and stream do not touch the parser.",
+        technique="effect / taint analysis over resolved ASTs and call graph (custom clang plugin + rule engine)",
+    ),
+    "C10": dict(
+        category="other",
+        text="source_point::update is decided exactly by abstract interpretation over the finite domain "
+             "{newline, other}; every advance of the parse position is shown, on every structured path of every "
+             "function that writes it, to be paired with current_sp.update over exactly the skipped range; lexers "
+             "receive the position by value; term values and messages read ps.current_sp; the whitespace skip is "
+             "committed before any return. By induction over advances current_sp is the true line/column for all "
+             "inputs and options, which no finite set of test inputs shows.",
+        design_ref="DESIGN.md 5/C10",
+        note=TB + " Loops are unrolled 0/1 times for the pairing rule, which is exact because the pairing is a "
+                  "per-statement adjacency property.",
+        technique="finite-domain abstract interpretation + path-sensitive pairing (must-precede) analysis",
+    ),
 }
 
 NOT_APPLICABLE = {
